@@ -63,6 +63,20 @@ def long_reliable(info):
     return info["int_sep"] and info["frac_sep"]
 
 
+def risky_value(info, o, s):
+    """non-decimal mantissa radix with an exponent of 3+ digits: the power-of-two conversion (binary.rs) returns
+    infinity for a zero mantissa with a large exponent and wraps exponents near 2^32/bits (C05/C06 findings of the
+    value layer, outside the syntax model) -> such inputs are compared at component level (`pn`) only"""
+    if info["radix"] == 10:
+        return False
+    b = s.encode("latin-1") if isinstance(s, str) else s
+    for e in (o.exp, o.exp ^ 0x20):
+        k = b.find(bytes([e]))
+        if k >= 0 and len(b) - k - 1 >= 3:
+            return True
+    return False
+
+
 class Opts:
     def __init__(self, exp=ord("e"), dp=ord("."), nan=DEFAULT_SPECIALS[0], inf=DEFAULT_SPECIALS[1],
                  infinity=DEFAULT_SPECIALS[2], lossy=0):
@@ -74,7 +88,8 @@ class Opts:
 
 def default_opts(info):
     # 'e' is a digit from radix 15 on: hex floats use 'p'
-    exp = ord("e") if max(info["radix"], info["exprad"]) < 15 else ord("p")
+    m = max(info["radix"], info["exprad"])
+    exp = ord("e") if m < 15 else (ord("p") if m < 26 else ord("^"))
     return Opts(exp=exp)
 
 
@@ -261,11 +276,23 @@ def op_pn(fmt, partial, o, s):
     return "pn %x %d %s %s" % (fmt, partial, o.fields(), hexs(s.encode("latin-1") if isinstance(s, str) else s))
 
 
-def formats_for(fs):
-    """formats of the catalogue usable as parsers in feature set fs (+ the plain radix-10 format)"""
-    if "format" not in fs:
-        return [pack(10)]
+def plain_radix_formats(fs):
+    """flag-free formats of fmtlib (radix / mixed-base) that the feature set supports"""
     out = [pack(10)]
+    if "radix" in fs:
+        out += [pack(r) for r in (2, 3, 8, 16, 36)]
+    elif "pow2" in fs:
+        out += [pack(r) for r in (2, 4, 8, 16, 32)]
+    if "radix" in fs or "pow2" in fs:
+        out += [pack(16, 2, 10), pack(4, 2, 4), pack(8, 2, 2), pack(32, 2, 10), pack(16, 4, 16), pack(16, 16, 10)]
+    return out
+
+
+def formats_for(fs):
+    """formats usable as parsers in feature set fs: plain radix formats + (with `format`) the catalogue"""
+    out = plain_radix_formats(fs)
+    if "format" not in fs:
+        return out
     for _, v, _ in fmtcat_pnum.extra_formats():
         if valid_in(v, fs) and not any(v == w for w, _ in fmtcat_pnum.CATALOGUE["invalid"]):
             out.append(v)
@@ -284,7 +311,7 @@ def float_syntax_ops(rng, fs, scale=1, families=("short", "long", "exp", "specia
 
         def emit(fam, s, oo, want_pf=True, want_pn=True, ty=None):
             p = rng.randint(0, 1)
-            if want_pf and vr:
+            if want_pf and vr and not risky_value(info, oo, s):
                 res[fam].append(op_pf(ty or ("f64" if rng.random() < 0.8 else "f32"), fmt, p, oo, s))
                 if want_pn:
                     oo2 = Opts(oo.exp, oo.dp, oo.nan, oo.inf, oo.infinity, lossy=rng.randint(0, 1))
